@@ -173,6 +173,22 @@ def runHooks (env : HookEnv) (h : Rat) (hooks : List Hook) (p : MP) : MP :=
     the transformer has its own model, C04/C13) -/
 def applyTransformId (p : Pt) : Pt := p
 
+/-- `_get_user_param(keys, kwargs)`: the value of the first of `keys` among the keyword names (transcription; the
+    translator checks that the source still is this lookup).  Keyword names are taken in upper case and distinct: the
+    `key.upper()` of the source is the identity here (lower-case spellings are exercised by the correspondence runs) -/
+def userParam (keys : List String) (ps : VParams) : Option Val :=
+  keys.findSome? fun k => lookupV ps k
+
+/-- `for key, value in kwargs.items(): if key.upper() in keys and value is not None: bounds.validate(name, value)` -/
+def validateEach (b : Bounds) (name : String) (keys : List String) : VParams → Option Err
+  | [] => none
+  | (k, v) :: r =>
+    if keys.contains k then
+      match validateNum b name v with
+      | .error e => some e
+      | .ok _ => validateEach b name keys r
+    else validateEach b name keys r
+
 /-- `Point.__add__` / `Point.__sub__` (coordinates resolved by the callers) -/
 def ptAdd (p q : Pt) : Pt := p.add q
 def ptSub (p q : Pt) : Pt := p.sub q
